@@ -1,7 +1,8 @@
 """C09 — validated identifiers and versions accept exactly the spec grammar.
 
 Decided:
-  R1 language        for each validating newtype the regex constant found in FromStr::from_str is compared
+  R1 language        for each validating newtype the regex constant reaching Regex::new from FromStr::from_str (directly or
+                     as the argument of a private helper, lifted to from_str's call of it) is compared
                      with the spec grammar as a *language*: MUST-ACCEPT is included, MUST-REJECT is disjoint
                      (automata product over all valid-UTF-8 strings, engine regexlang; shortest counter-example
                      printed)
@@ -24,7 +25,8 @@ Decided:
                      validated (collect::<Option<Vec<_>>> + length 3, or three validated pulls from one iterator and a
                      fourth pull that is None); BuildpackApi: the parsed strings are the halves of split_once('.') with
                      (value, "0") as the default; Deserialize = try_from(String::deserialize(d)?) in normal form; Display
-                     templates in field order
+                     writes the fields in order separated by '.' (format template, or the rendered-text normal form
+                     C09_helpers.text_pieces of to_string / join spellings)
 Not decided: the u64 overflow boundary; display/parse being inverse for all triples (core formatting trusted).
 """
 import json
@@ -62,13 +64,26 @@ def regexlang(ctx, jobs):
 
 
 def regex_in_from_str(prog, sl, f):
-    """regex constants flowing into fancy_regex::Regex::new inside from_str"""
+    """regex constants flowing into fancy_regex::Regex::new in anything from_str may enter inside its crate (closures,
+    private helpers): a pattern that a helper receives as a parameter is re-expressed at from_str's own call of it"""
     res = []
-    for g in [f] + prog.closures_of(f):
+    fns = H.region(prog, f)
+    inside = {g.path for g in fns}
+    for g in fns:
         for c in g.calls:
-            if c.is_('fancy_regex::Regex::new'):
-                v = strip(sl.operand(g, c.args[0]))
-                res.append(v[1] if v[0] == 'const' else None)
+            if not c.is_('fancy_regex::Regex::new'):
+                continue
+            v = strip(sl.operand(g, c.args[0]))
+            if v[0] == 'const':
+                res.append(v[1])
+                continue
+            for top, vals in H.lift(prog, sl, g, [v], f):
+                lv = strip(vals[0])
+                if top.path == f.path:
+                    res.append(lv[1] if lv[0] == 'const' else None)
+                elif top.path in inside:
+                    res.append(None)
+                # else: a shared helper is also called by the from_str of the other types; those sites are theirs
     return res
 
 
@@ -222,6 +237,9 @@ def run(ctx, rep):
     # P excluded on every path (Ok(false), Err, `.unwrap_or(false)` false, `matches!(.., Ok(true))` false) => unmatched
     table = {}
     names = ('expression_when_matched', 'expression_when_unmatched')
+    # Taking the input struct apart (`let VerifyRegexInput { a, b, .. } = input;`, `let m = input.a;`) picks nothing yet:
+    # a local that is assigned once, unconditionally on entry, and only moved on is another name of the field; the pick
+    # is where that name is used.
     for g in H.region(prog, vr):
         for bi, b in enumerate(g.blocks):
             for st in b['s']:
@@ -229,6 +247,11 @@ def run(ctx, rep):
                     continue
                 pl = op_place(st[2]['o'])
                 picked = [n for n in names if pl and ('.' + n) in pl[1:]]
+                if not picked:
+                    fv = H.field_alias_value(sl, g, pl)
+                    picked = [n for n in names if fv is not None and fv[2] == n]
+                elif H.is_field_alias(g, st[1], bi):
+                    continue
                 if not picked or bi not in g.reachable(0):
                     continue
                 rep.analysed(g)
@@ -313,6 +336,15 @@ def run(ctx, rep):
                     want.append(fl)
                 got = [p if isinstance(p, str) else (strip(p)[2] if strip(p)[0] == 'field' else '?') for p in fm[1]]
                 ok = got == want
+            if not ok:
+                # the same text rendered without one template: [self.major, ..].map(|c| c.to_string()).join(".") etc.,
+                # read as the pieces the single formatter call of fmt writes
+                pcs = H.display_pieces(sl, dsp)
+                if pcs is not None:
+                    pcs = [q for p in pcs for q in ([p] if isinstance(p, str) else H.text_pieces(sl, p))]
+                    want = [x for i, fl in enumerate(fields) for x in (['.'] if i else []) + [fl]]
+                    got = [p if isinstance(p, str) else (strip(p)[2] if strip(p)[0] == 'field' and strip(strip(p)[1])[0] == 'param' else '?') for p in pcs]
+                    ok = got == want
         rep.check(ok, 'R6', short + '/display', where, 'Display = %s' % '.'.join('{%s}' % x for x in fields), 'Display template does not print %s in order' % fields)
     # BuildpackVersion specifics: split('.'), exactly 3 parts, leading zero rejection
     tf = prog.fns.get('<%s as std::convert::TryFrom<std::string::String>>::try_from' % VER)
